@@ -226,11 +226,15 @@ func TestC07_Random(t *testing.T) {
 		}
 		w.checkQuiet()
 		var both, equalNonEmpty bool
-		chain := 0
+		chain, near := 0, 0
 		t.Repeat(map[string]func(*rapid.T){
 			"put": func(t *rapid.T) {
 				k := rapid.SampledFrom(keys).Draw(t, "k")
-				w.put(k[0], k[1], drawLabels(t))
+				if rapid.Bool().Draw(t, "rich") {
+					w.put(k[0], k[1], genLabelMap(true).Draw(t, "labels")) // keys x,y; values 1,2,""
+				} else {
+					w.put(k[0], k[1], drawLabels(t))
+				}
 			},
 			"del": func(t *rapid.T) {
 				k := rapid.SampledFrom(keys).Draw(t, "k")
@@ -242,6 +246,28 @@ func TestC07_Random(t *testing.T) {
 				w.barrier()
 				r := c07Step(w, n, rapid.IntRange(0, len(w.fam)-1).Draw(t, "f"))
 				chain++
+				both = both || (r.removed > 0 && r.added > 0)
+				equalNonEmpty = equalNonEmpty || (r.equalFilter && r.retained > 0)
+			},
+			"refilterNear": func(t *rapid.T) {
+				// a generated filter structurally close to the current one (same constructor, one argument or
+				// child changed, permuted, duplicated or dropped): the pairs on which an "is it the same
+				// filter?" shortcut can go wrong
+				if n.filt < 0 {
+					t.Skip("no current term")
+				}
+				cur := w.fam[n.filt]
+				if cur.depth() == 0 && rapid.Bool().Draw(t, "wrap") {
+					// grow a composite around the current leaf first
+					cur = &term{Kind: rapid.SampledFrom([]termKind{tAnd, tOr}).Draw(t, "wk"), Children: []*term{cloneTerm(cur), cloneTerm(cur)}}
+				} else {
+					cur = mutateTerm(t, termCfg{}, cur)
+				}
+				w.fam = append(w.fam, cur)
+				w.barrier()
+				r := c07Step(w, n, len(w.fam)-1)
+				chain++
+				near++
 				both = both || (r.removed > 0 && r.added > 0)
 				equalNonEmpty = equalNonEmpty || (r.equalFilter && r.retained > 0)
 			},
@@ -289,5 +315,96 @@ func TestC07_Random(t *testing.T) {
 			return map[string]interface{}{"mode": "random", "history": hist}
 		}, "random", fmt.Sprintf("depth%d", depth), "kind_"+kind)
 		statLabel("C07", "random_checked_refilters", int64(chain))
+		statLabel("C07", "random_refilters_to_generated_nearby_filter", int64(near))
 	})
+}
+
+// c07Composites: composite filters whose pairwise differences are the ones an
+// equality shortcut for composites gets wrong — same length with a
+// duplicated child vs. distinct children, permuted children, a child
+// replaced, empty composites, double negation.
+func c07Composites() []*term {
+	fam := treeFilterFamily()
+	l1, l2, nsA := fam[1], fam[2], fam[3]
+	c := func(k termKind, ch ...*term) *term { return &term{Kind: k, Children: ch} }
+	return []*term{
+		c(tOr, l1, l1), c(tOr, l1, l2), c(tOr, l2, l1), c(tOr, l2, l2), c(tOr, l1, nsA), c(tOr, nsA, nsA),
+		c(tAnd, nsA, nsA), c(tAnd, nsA, l1), c(tAnd, l1, nsA), c(tAnd, nsA, l2), c(tAnd, l1, l1),
+		c(tNot, l2), c(tNot, c(tNot, l1)), c(tOr), c(tAnd),
+	}
+}
+
+// TestC07_EnumComposite: every parent content over 4 keys x {absent, x=1,
+// x=2, unlabeled} x every ordered pair of the composite family, as chains
+// f1 -> f2 -> f1 on one long-lived filtered subscription.
+func TestC07_EnumComposite(t *testing.T) {
+	shard, nshards := shardOf()
+	stride := envInt("VERIF_ENUM_STRIDE", 1)
+	offset := envInt("VERIF_SEED", 1) % stride
+	ft := &testFailer{t: t, prop: "C07", test: "TestC07_EnumComposite"}
+	w := newWorld(ft, worldCfg{prop: "C07", rootFilter: -1})
+	defer w.abort()
+	base := len(w.fam)
+	w.fam = append(w.fam, c07Composites()...)
+	var family []int
+	for i := base; i < len(w.fam); i++ {
+		family = append(family, i)
+	}
+	n := w.attach(w.nodes[0], "fsub", family[0])
+	w.checkQuiet()
+	states := []string{"absent", "1", "2", ""}
+	var contents, refilters int64
+	for c := 0; c < 256; c++ {
+		if c%nshards != shard || (c/nshards)%stride != offset {
+			continue
+		}
+		w.hist = w.hist[:0]
+		desc := make([]string, 4)
+		for i, k := range treeKeys {
+			s := states[(c>>(2*uint(i)))&3]
+			desc[i] = k[0] + "/" + k[1] + "=" + s
+			switch s {
+			case "absent":
+				w.del(k[0], k[1])
+			case "":
+				w.put(k[0], k[1], nil)
+			default:
+				w.put(k[0], k[1], map[string]string{"x": s})
+			}
+		}
+		ft.ctx = fmt.Sprintf("content %v", desc)
+		w.barrier()
+		contents++
+		for _, f1 := range family {
+			for _, f2 := range family {
+				w.hist = w.hist[:0]
+				ft.ctx = fmt.Sprintf("content %v pair %s -> %s", desc, w.filtName(f1), w.filtName(f2))
+				if n.filt != f1 {
+					c07Step(w, n, f1)
+				}
+				viewA := fmtContent(listContent(w, n.leaf.Cache(), n.path()))
+				r2 := c07Step(w, n, f2)
+				r1 := c07Step(w, n, f1)
+				refilters += 2
+				if back := fmtContent(listContent(w, n.leaf.Cache(), n.path())); back != viewA {
+					w.fail("A->B->A does not restore the view under A: %s vs %s", back, viewA)
+				}
+				nt := r2.removed+r2.added > 0 || r1.removed+r1.added > 0 || ((r2.equalFilter || r1.equalFilter) && r2.retained+r1.retained > 0)
+				id := fmt.Sprintf("comp|%v|%d,%d", desc, f1, f2)
+				statCase("C07", hashString(id), nt, func() interface{} {
+					return map[string]interface{}{"mode": "enumerated composites", "parent_content": desc, "filters": []string{w.filtName(f1), w.filtName(f2)}}
+				}, "enum_composite_pair")
+			}
+		}
+	}
+	w.finish()
+	statLabel("C07", "enum_composite_contents", contents)
+	statLabel("C07", "enum_composite_checked_refilters", refilters)
+	if shard == 0 {
+		what := fmt.Sprintf("256 parent contents x all %d ordered pairs of a %d-member composite family (duplicated/permuted/replaced children of And/Or, empty composites, double negation), each as a chain f1->f2->f1 of checked Refilters", len(family)*len(family), len(family))
+		if stride > 1 {
+			what += fmt.Sprintf(" — this run: every %d-th content only (not exhaustive)", stride)
+		}
+		statExhaustive("C07", what)
+	}
 }
